@@ -1,0 +1,98 @@
+// Copyright 2020-2025 Buf Technologies, Inc.
+//
+// Licensed under the Apache License, Version 2.0 (the "License");
+// you may not use this file except in compliance with the License.
+// You may obtain a copy of the License at
+//
+//      http://www.apache.org/licenses/LICENSE-2.0
+//
+// Unless required by applicable law or agreed to in writing, software
+// distributed under the License is distributed on an "AS IS" BASIS,
+// WITHOUT WARRANTIES OR CONDITIONS OF ANY KIND, either express or implied.
+// See the License for the specific language governing permissions and
+// limitations under the License.
+
+//go:build verif
+
+package bufimagemodify
+
+// Contracts for the gocv verifier (see /verif/DESIGN.md). Comment-only.
+//
+// C18: managed mode rewrites only what it governs.
+//
+//@ trusted pure interface bufconfig.GenerateManagedConfig
+//@ trusted pure interface bufconfig.ManagedDisableRule
+//@ trusted pure interface bufconfig.ManagedOverrideRule
+//@ trusted pure interface bufimage.ImageFile
+//@ trusted pure interface bufparse.FullName
+//@ trusted func (internal.MarkSweeper) Mark(imageFile, path)
+//@   modifies ghost.markCount
+//@   ensures ghost.markCount == old(ghost.markCount) + 1
+//@ trusted func (internal.MarkSweeper) Sweep() (err)
+//@   modifies ghost.sweepCount, heap
+//@   ensures ghost.sweepCount == old(ghost.sweepCount) + 1
+//@ trusted func internal.NewMarkSweeper(image) (r)
+//@   ensures r != nil
+//
+// A rule matches a file by path-wise containment of its path and exact match of its module name.
+//@ pure func fileMatchConfig(imageFile, requiredPath, requiredFullName) (r)
+//@   property C18
+//@   reveal ancOrSelf
+//@   requires requiredPath != "" ==> validRel(requiredPath) && validRel(imageFile.Path())
+//@   ensures match: r <==> ((requiredPath == "" || ancOrSelf(requiredPath, imageFile.Path())) && (requiredFullName == "" || (imageFile.FullName() != nil && imageFile.FullName().String() == requiredFullName)))
+//
+// Disabled iff SOME disable rule names this file option (or none), is not a field-option rule, and matches the file.
+//@ pure func isFileOptionDisabledForFile(imageFile, fileOption, config) (r)
+//@   property C18
+//@   requires validRel(imageFile.Path()) && (forall i int :: 0 <= i && i < len(config.Disables()) ==> config.Disables()[i].Path() == "" || validRel(config.Disables()[i].Path()))
+//@   ensures exact: r <==> (exists i int :: 0 <= i && i < len(config.Disables()) && (config.Disables()[i].FileOption() == bufconfig.FileOptionUnspecified || config.Disables()[i].FileOption() == fileOption) && config.Disables()[i].FieldOption() == bufconfig.FieldOptionUnspecified && fileMatchConfig(imageFile, config.Disables()[i].Path(), config.Disables()[i].FullName()))
+//@   loop 0 invariant forall i int :: 0 <= i && i < $i ==> !((config.Disables()[i].FileOption() == bufconfig.FileOptionUnspecified || config.Disables()[i].FileOption() == fileOption) && config.Disables()[i].FieldOption() == bufconfig.FieldOptionUnspecified && fileMatchConfig(imageFile, config.Disables()[i].Path(), config.Disables()[i].FullName()))
+//@   canary ensures r
+//
+// The last matching override rule for the option wins; no matching rule means no override.
+//@ func overrideFromConfig(imageFile, config, fileOption) (r, err)
+//@   property C18
+//@   requires validRel(imageFile.Path()) && (forall i int :: 0 <= i && i < len(config.Overrides()) ==> config.Overrides()[i].Path() == "" || validRel(config.Overrides()[i].Path()))
+//@   ensures none: err == nil ==> ((r == nil) <==> !(exists i int :: 0 <= i && i < len(config.Overrides()) && fileMatchConfig(imageFile, config.Overrides()[i].Path(), config.Overrides()[i].FullName()) && config.Overrides()[i].FileOption() == fileOption))
+//@   ensures last-wins: err == nil && r != nil ==> (exists i int :: 0 <= i && i < len(config.Overrides()) && fileMatchConfig(imageFile, config.Overrides()[i].Path(), config.Overrides()[i].FullName()) && config.Overrides()[i].FileOption() == fileOption && derefRef(r) == config.Overrides()[i].Value() && (forall j int :: i < j && j < len(config.Overrides()) ==> !(fileMatchConfig(imageFile, config.Overrides()[j].Path(), config.Overrides()[j].FullName()) && config.Overrides()[j].FileOption() == fileOption)))
+//@   loop 0 invariant forall p ref :: old(allocated(p)) ==> derefRef(p) == old(derefRef(p))
+//@   loop 0 invariant (override == nil) <==> !(exists i int :: 0 <= i && i < $i && fileMatchConfig(imageFile, config.Overrides()[i].Path(), config.Overrides()[i].FullName()) && config.Overrides()[i].FileOption() == fileOption)
+//@   loop 0 invariant override != nil ==> (exists i int :: 0 <= i && i < $i && fileMatchConfig(imageFile, config.Overrides()[i].Path(), config.Overrides()[i].FullName()) && config.Overrides()[i].FileOption() == fileOption && derefRef(override) == config.Overrides()[i].Value() && (forall j int :: i < j && j < $i ==> !(fileMatchConfig(imageFile, config.Overrides()[j].Path(), config.Overrides()[j].FullName()) && config.Overrides()[j].FileOption() == fileOption)))
+//
+// A file option is written (setOptionFunc) at most once, never when a disable rule exempts the file or the
+// value is already there, and the source location is marked exactly when the option was written.
+//@ func modifyFileOption(sweeper, imageFile, config, preserveExisting, fileOption, defaultValue, getOptionFunc, setOptionFunc, checkOptionSetFunc, sourceLocationPath) (err)
+//@   property C18
+//@   callback pure getOptionFunc
+//@   callback pure checkOptionSetFunc
+//@   modifies heap, ghost.cbCalls, ghost.cbArgs, ghost.cbArg0, ghost.cbArg1, ghost.cbArg2, ghost.markCount
+//@   requires validRel(imageFile.Path()) && (forall i int :: 0 <= i && i < len(config.Disables()) ==> config.Disables()[i].Path() == "" || validRel(config.Disables()[i].Path())) && (forall i int :: 0 <= i && i < len(config.Overrides()) ==> config.Overrides()[i].Path() == "" || validRel(config.Overrides()[i].Path()))
+//@   ensures disabled-untouched: isFileOptionDisabledForFile(imageFile, fileOption, config) ==> err == nil && ghost.cbCalls == old(ghost.cbCalls) && ghost.markCount == old(ghost.markCount)
+//@   ensures marks-exactly-rewrites: ghost.markCount - old(ghost.markCount) == ghost.cbCalls[setOptionFunc] - old(ghost.cbCalls)[setOptionFunc] && ghost.markCount - old(ghost.markCount) <= 1 && ghost.markCount >= old(ghost.markCount)
+//@   ensures error-untouched: err != nil ==> ghost.cbCalls == old(ghost.cbCalls) && ghost.markCount == old(ghost.markCount)
+//
+//@ func modifyStringOption(sweeper, imageFile, config, preserveExisting, valueOption, prefixOption, suffixOption, defaultOptionsFunc, valueFunc, getOptionFunc, setOptionFunc, checkOptionSetFunc, sourceLocationPath) (err)
+//@   property C18
+//@   callback pure getOptionFunc
+//@   callback pure checkOptionSetFunc
+//@   callback pure defaultOptionsFunc
+//@   callback pure valueFunc
+//@   modifies heap, ghost.cbCalls, ghost.cbArgs, ghost.cbArg0, ghost.cbArg1, ghost.cbArg2, ghost.markCount
+//@   requires validRel(imageFile.Path()) && (forall i int :: 0 <= i && i < len(config.Disables()) ==> config.Disables()[i].Path() == "" || validRel(config.Disables()[i].Path())) && (forall i int :: 0 <= i && i < len(config.Overrides()) ==> config.Overrides()[i].Path() == "" || validRel(config.Overrides()[i].Path()))
+//@   ensures disabled-untouched: isFileOptionDisabledForFile(imageFile, valueOption, config) ==> err == nil && ghost.cbCalls == old(ghost.cbCalls) && ghost.markCount == old(ghost.markCount)
+//@   ensures marks-exactly-rewrites: ghost.markCount - old(ghost.markCount) == ghost.cbCalls[setOptionFunc] - old(ghost.cbCalls)[setOptionFunc] && ghost.markCount - old(ghost.markCount) <= 1 && ghost.markCount >= old(ghost.markCount)
+//@   ensures error-untouched: err != nil ==> ghost.cbCalls == old(ghost.cbCalls) && ghost.markCount == old(ghost.markCount)
+//
+//@ trusted func stringOverrideFromConfig(imageFile, config, defaultOverrideOptions, valueFileOption, prefixFileOption, suffixFileOption) (r, err)
+//@   requires validRel(imageFile.Path())
+//@   ensures isFileOptionDisabledForFile(imageFile, valueFileOption, config) ==> err == nil && r.value == "" && r.prefix == "" && r.suffix == ""
+//
+// With managed mode disabled nothing is called at all; otherwise no modifier ever sees a well-known-type file.
+//@ func modifyImage(image, config, modifyFuncs, options) (err)
+//@   property C18
+//@   modifies heap, ghost.cbCalls, ghost.cbArgs, ghost.cbArg0, ghost.cbArg1, ghost.cbArg2, ghost.sweepCount, ghost.fail
+//@   ensures disabled-untouched: !config.Enabled() ==> err == nil && ghost.cbCalls == old(ghost.cbCalls) && ghost.cbArgs == old(ghost.cbArgs) && ghost.sweepCount == old(ghost.sweepCount)
+//@   ensures wkt-never-modified: forall x ref :: x in ghost.cbArg1 && !(x in old(ghost.cbArg1)) ==> (exists i int :: 0 <= i && i < len(image.Files()) && x == image.Files()[i] && !datawkt.Exists(image.Files()[i].Path()))
+//@   loop 0 invariant forall x ref :: x in ghost.cbArg1 && !(x in old(ghost.cbArg1)) ==> (exists i int :: 0 <= i && i < $i0 && x == image.Files()[i] && !datawkt.Exists(image.Files()[i].Path()))
+//@   loop 1 invariant forall x ref :: x in ghost.cbArg1 && !(x in old(ghost.cbArg1)) ==> (exists i int :: 0 <= i && i <= $i0 && x == image.Files()[i] && !datawkt.Exists(image.Files()[i].Path()))
+//@   loop 1 invariant $i0 < len(image.Files()) && imageFile == image.Files()[$i0] && !datawkt.Exists(imageFile.Path())
